@@ -26,7 +26,7 @@ PROP = "C20"
 OPTIONS = {"project": "W", "src_dir": "./src", "output_dir": "./doc", "preprocess": False, "parallel": 0,
            "search": False, "graph": False}
 PREFIX = "zz"
-STATED = {"copy_end_at_eof", "copy_trunc_stmt", "copy_extra_end", "copy_trunc_byte", "trunc_stmt", "trunc_byte", "splice", "lost_block", "byteflip", "undecodable", "empty", "whitespace",
+STATED = {"surplus_end_append", "surplus_end_tail", "copy_end_at_eof", "copy_trunc_stmt", "copy_extra_end", "copy_trunc_byte", "trunc_stmt", "trunc_byte", "splice", "lost_block", "byteflip", "undecodable", "empty", "whitespace",
           "extra_end", "missing_end", "dup_contains", "misplaced_contains", "malformed", "binary", "long_line",
           "crlf_mix"}
 
@@ -83,6 +83,21 @@ def gen_case(seed, idx):
         pos = frng.choice(["first", "first", "last"])
         name = "src/%s_copy%d.f90" % ("aaa" if pos == "first" else "zzzz", j)
         sets.append({"files": {name: dmg}, "kinds": {name: "copy_%s@%s" % (how, pos)}, "copy_of_valid": True})
+    # an unbalanced END at file level -- a complete valid text followed by a surplus END statement, or the
+    # tail of a main program whose head was lost: such a file cannot be parsed and must be rejected and named
+    for j in range(3):
+        how = frng.choice(["append", "append", "tail"])
+        if how == "append":
+            base = frng.choice(texts)
+            dmg = base.rstrip("\n") + "\n" + frng.choice(["end", "end program", "end program %smain" % PREFIX, "end module",
+                                                       "end subroutine %snothing" % PREFIX, "END PROGRAM", "end  program  %sp" % PREFIX]) + "\n"
+        else:
+            dmg = ("contains\n  subroutine %stail%d()\n    !! tail helper\n  end subroutine %stail%d\nend program %smain\n"
+                   % (PREFIX, j, PREFIX, j, PREFIX)) if frng.random() < 0.5 else \
+                  ("  integer :: %stv%d\n  %stv%d = 1\nend program %smain\n" % (PREFIX, j, PREFIX, j, PREFIX))
+        pos = frng.choice(["first", "last", "first"])
+        name = "src/%s_surplus%d.f90" % ("aaa" if pos == "first" else "zzzz", j)
+        sets.append({"files": {name: dmg}, "kinds": {name: "surplus_end_%s@%s" % (how, pos)}, "must_reject": True})
     # I/O faults on an otherwise valid extra file
     io = []
     for j in range(2):
@@ -199,6 +214,11 @@ def evaluate(case, seed, workdir, sets=None, io=None, full=False):
             out["probes"]["rejected_file"] = out["probes"].get("rejected_file", 0) + len(rejected)
         if len(rejected) < len(names):
             out["probes"]["accepted_damaged_file"] = out["probes"].get("accepted_damaged_file", 0) + (len(names) - len(rejected))
+        if typ == "set" and m.get("must_reject") and len(rejected) < len(names):
+            kept = [n for n in names if n not in rejected]
+            out["findings"].append(("not-rejected/unbalanced-end", "file %s has an unbalanced END at file level (%s) but FORD kept it%s"
+                                    % (kept, label, "" if all(n in v.get("stdout", "") for n in kept) else " and did not even name it in its output"),
+                                    dict(detail, rerun=rerun)))
         for n in rejected:
             if n not in v.get("stdout", ""):
                 out["findings"].append(("not-named", "FORD rejected %s but its diagnostic output does not name the file" % n, dict(detail, rerun=rerun, stdout=v.get("stdout", "")[-1500:])))
